@@ -50,12 +50,90 @@ theorem musig_pubkey_tweak_add_internal_sites : Facts.musig_pubkey_tweak_add_int
     ⟨.scalar_set_b32, 1, false, some true⟩
   ] := by decide
 
-def all : List CallFact := Facts.musig_partial_sig_parse ++ Facts.musig_pubnonce_parse ++ Facts.musig_partial_sign ++ Facts.musig_partial_sig_verify ++ Facts.musig_pubkey_tweak_add_internal
+/-- `secp256k1_keyagg_cache_load`: its fallible-primitive call sites are exactly these, each with its result / overflow flag
+    consumed as listed. -/
+theorem keyagg_cache_load_sites : Facts.keyagg_cache_load = [
+    ⟨.memcmp_var, 1, true, none⟩,
+    ⟨.scalar_set_b32, 1, false, none⟩
+  ] := by decide
+
+/-- `secp256k1_musig_adapt`: its fallible-primitive call sites are exactly these, each with its result / overflow flag
+    consumed as listed. -/
+theorem musig_adapt_sites : Facts.musig_adapt = [
+    ⟨.scalar_set_b32, 1, false, some true⟩,
+    ⟨.scalar_set_b32, 2, false, some true⟩
+  ] := by decide
+
+/-- `secp256k1_musig_extract_adaptor`: its fallible-primitive call sites are exactly these, each with its result / overflow flag
+    consumed as listed. -/
+theorem musig_extract_adaptor_sites : Facts.musig_extract_adaptor = [
+    ⟨.scalar_set_b32, 1, false, some true⟩,
+    ⟨.scalar_set_b32, 2, false, some true⟩
+  ] := by decide
+
+/-- `secp256k1_musig_keyaggcoef_internal`: its fallible-primitive call sites are exactly these, each with its result / overflow flag
+    consumed as listed. -/
+theorem musig_keyaggcoef_internal_sites : Facts.musig_keyaggcoef_internal = [
+    ⟨.ge_is_infinity, 1, true, none⟩,
+    ⟨.scalar_set_b32, 1, false, none⟩
+  ] := by decide
+
+/-- `secp256k1_musig_nonce_gen_internal`: its fallible-primitive call sites are exactly these, each with its result / overflow flag
+    consumed as listed. -/
+theorem musig_nonce_gen_internal_sites : Facts.musig_nonce_gen_internal = [
+    ⟨.ecmult_gen_context_is_built, 1, true, none⟩,
+    ⟨.scalar_set_b32_seckey, 1, true, none⟩,
+    ⟨.keyagg_cache_load, 1, true, none⟩,
+    ⟨.pubkey_load, 1, true, none⟩
+  ] := by decide
+
+/-- `secp256k1_musig_nonce_process_internal`: its fallible-primitive call sites are exactly these, each with its result / overflow flag
+    consumed as listed. -/
+theorem musig_nonce_process_internal_sites : Facts.musig_nonce_process_internal = [
+    ⟨.scalar_set_b32, 1, false, none⟩,
+    ⟨.ge_is_infinity, 1, true, none⟩
+  ] := by decide
+
+/-- `secp256k1_musig_partial_sig_load`: its fallible-primitive call sites are exactly these, each with its result / overflow flag
+    consumed as listed. -/
+theorem musig_partial_sig_load_sites : Facts.musig_partial_sig_load = [
+    ⟨.memcmp_var, 1, true, none⟩,
+    ⟨.scalar_set_b32, 1, false, some false⟩
+  ] := by decide
+
+/-- `secp256k1_musig_secnonce_load`: its fallible-primitive call sites are exactly these, each with its result / overflow flag
+    consumed as listed. -/
+theorem musig_secnonce_load_sites : Facts.musig_secnonce_load = [
+    ⟨.memcmp_var, 1, true, none⟩,
+    ⟨.is_zero_array, 1, true, none⟩,
+    ⟨.scalar_set_b32, 1, false, none⟩,
+    ⟨.scalar_set_b32, 2, false, none⟩
+  ] := by decide
+
+/-- `secp256k1_musig_session_load`: its fallible-primitive call sites are exactly these, each with its result / overflow flag
+    consumed as listed. -/
+theorem musig_session_load_sites : Facts.musig_session_load = [
+    ⟨.memcmp_var, 1, true, none⟩,
+    ⟨.scalar_set_b32, 1, false, none⟩,
+    ⟨.scalar_set_b32, 2, false, none⟩,
+    ⟨.scalar_set_b32, 3, false, none⟩
+  ] := by decide
+
+/-- `secp256k1_nonce_function_musig`: its fallible-primitive call sites are exactly these, each with its result / overflow flag
+    consumed as listed. -/
+theorem nonce_function_musig_sites : Facts.nonce_function_musig = [
+    ⟨.scalar_set_b32, 1, false, none⟩
+  ] := by decide
+
+/-- `secp256k1_musig_partial_sig_load` ignores the overflow flag outside VERIFY builds ON PURPOSE: the object can only come from secp256k1_musig_partial_sig_parse, which rejects s >= n (pinned above), or from partial_sign / save, which store a reduced scalar. -/
+theorem musig_partial_sig_load_flag_verify_only : (Facts.musig_partial_sig_load.filter (fun f => f.flag = some false)).length = 1 := by decide
+
+def all : List CallFact := Facts.musig_partial_sig_parse ++ Facts.musig_pubnonce_parse ++ Facts.musig_partial_sign ++ Facts.musig_partial_sig_verify ++ Facts.musig_pubkey_tweak_add_internal ++ Facts.keyagg_cache_load ++ Facts.musig_adapt ++ Facts.musig_extract_adaptor ++ Facts.musig_keyaggcoef_internal ++ Facts.musig_nonce_gen_internal ++ Facts.musig_nonce_process_internal ++ Facts.musig_secnonce_load ++ Facts.musig_session_load ++ Facts.nonce_function_musig
 
 /-- No overflow flag written by a scalar decoding in these functions is ignored (overwritten or never read). -/
 theorem no_flag_dropped : ∀ f ∈ all, f.flag ≠ some false := by decide
 
 /-- non-vacuity: the regenerated fact lists are not empty -/
-example : all.length = 14 := by decide
+example : all.length = 37 := by decide
 
 end SecpZkp.Props.C12_guards
